@@ -872,18 +872,18 @@ func c14SessionOne(a vh.Args, o *vh.Oracle, r *vh.Result, s *c14Session, level s
 		case failing != "" && i > indexOf(reqs, failing):
 			// after a store failure the session is over; every later answer must be an error
 			if g != "E" {
-				r.Fail("predicate", "session/reply-after-failure", fmt.Sprintf("%s session %v: request %d answered %s after the store failed", level, reqs, i, c14Short(g)), c)
+				r.Fail("predicate", "session/reply-after-failure", fmt.Sprintf("%s session (upstream store uncompressed=%v) %v: request %d answered %s after the store failed", level, s.unc, reqs, i, c14Short(g)), c)
 			}
 		case sawMissing && g == "E":
-			r.Fail("predicate", "session/request-after-missing", fmt.Sprintf("%s session %v: request %d (%s) failed because the server ended the session after answering MISSING; expected %s", level, reqs, i, q, c14Short(want)), c)
+			r.Fail("predicate", "session/request-after-missing", fmt.Sprintf("%s session (upstream store uncompressed=%v) %v: request %d (%s) failed because the server ended the session after answering MISSING; expected %s", level, s.unc, reqs, i, q, c14Short(want)), c)
 		case strings.HasPrefix(g, "D:") && strings.HasPrefix(want, "D:"):
-			r.Fail("predicate", "session/wrong-data", fmt.Sprintf("%s session %v: request %d delivered other data", level, reqs, i), c)
+			r.Fail("predicate", "session/wrong-data", fmt.Sprintf("%s session (upstream store uncompressed=%v) %v: request %d delivered other data", level, s.unc, reqs, i), c)
 		case g == "M":
-			r.Fail("predicate", "session/present-reported-missing", fmt.Sprintf("%s session %v: request %d (%s) reported missing", level, reqs, i, q), c)
+			r.Fail("predicate", "session/present-reported-missing", fmt.Sprintf("%s session (upstream store uncompressed=%v) %v: request %d (%s) reported missing", level, s.unc, reqs, i, q), c)
 		case strings.HasPrefix(g, "D:"):
-			r.Fail("predicate", "session/missing-reported-present", fmt.Sprintf("%s session %v: request %d (%s) delivered data", level, reqs, i, q), c)
+			r.Fail("predicate", "session/missing-reported-present", fmt.Sprintf("%s session (upstream store uncompressed=%v) %v: request %d (%s) delivered data", level, s.unc, reqs, i, q), c)
 		default:
-			r.Fail("predicate", "session/wrong-reply", fmt.Sprintf("%s session %v: request %d (%s) answered %s, expected %s", level, reqs, i, q, c14Short(g), c14Short(want)), c)
+			r.Fail("predicate", "session/wrong-reply", fmt.Sprintf("%s session (upstream store uncompressed=%v) %v: request %d (%s) answered %s, expected %s", level, s.unc, reqs, i, q, c14Short(g), c14Short(want)), c)
 		}
 		if _, ok := s.present[q]; !ok && q != failing {
 			sawMissing = true
@@ -919,7 +919,7 @@ func c14SessionOne(a vh.Args, o *vh.Oracle, r *vh.Result, s *c14Session, level s
 	c.Model = c14Short(ans)
 	r.Corr()
 	if ans != strings.Join(got, ",") {
-		r.Fail("corr", "corr:C14/session", fmt.Sprintf("%s session %v: model %s, implementation %s", level, reqs, c14Short(ans), c.Got), c)
+		r.Fail("corr", "corr:C14/session", fmt.Sprintf("%s session (upstream store uncompressed=%v) %v: model %s, implementation %s", level, s.unc, reqs, c14Short(ans), c.Got), c)
 	}
 	return nil
 }
